@@ -57,10 +57,13 @@ def run(cmd, cwd=None, timeout=3600, env=None):
 
 
 def source_fingerprint():
-    """{relative path: sha256 of the position-free AST dump} for the Python sources of /repo (comments and layout do not count)."""
-    import ast
+    """{relative path: sha256 of the token stream without comments and blank lines} for the Python sources of /repo (layout and
+    comments do not count; the same under every Python version)."""
     import hashlib
+    import io
+    import tokenize
     out = {}
+    skip = {tokenize.COMMENT, tokenize.NL, tokenize.ENCODING}
     for sub in ('src/rimu', 'src/rimuc'):
         d = os.path.join(REPO, sub)
         if not os.path.isdir(d):
@@ -70,11 +73,19 @@ def source_fingerprint():
                 continue
             path = os.path.join(d, name)
             try:
-                with open(path, encoding='utf-8') as f:
-                    tree = ast.parse(f.read())
-                text = ast.dump(tree, annotate_fields=False, include_attributes=False)
-            except (SyntaxError, ValueError, OSError) as e:
-                text = 'unparsable: %r' % (e,)
+                with open(path, 'rb') as f:
+                    data = f.read()
+                toks = []
+                for t in tokenize.tokenize(io.BytesIO(data).readline):
+                    if t.type in skip:
+                        continue
+                    if t.type in (tokenize.INDENT, tokenize.DEDENT, tokenize.NEWLINE, tokenize.ENDMARKER):
+                        toks.append(tokenize.tok_name[t.type])
+                    else:
+                        toks.append(t.string)
+                text = '\x00'.join(toks)
+            except (SyntaxError, ValueError, OSError, tokenize.TokenError) as e:
+                text = 'unreadable: %r' % (e,)
             out[sub + '/' + name] = hashlib.sha256(text.encode('utf-8', 'replace')).hexdigest()
     return out
 
@@ -90,6 +101,8 @@ def source_changed():
             ref = json.load(f)
     except (OSError, ValueError):
         return []
+    if ref.pop('python', None) != '%d.%d' % sys.version_info[:2]:
+        return []       # tokenisation differs between Python versions (f-strings): recorded under another one, so unknown
     cur = source_fingerprint()
     return sorted(k for k in set(ref) | set(cur) if ref.get(k) != cur.get(k))
 
